@@ -424,15 +424,23 @@ from bcverif.props import c08
 K = c08.kinds()
 items = json.load(open(sys.argv[1]))
 rnd = random.Random(int(sys.argv[2]))
-out = []
-for it in items:
+out = [None] * len(items)
+# every interpreter meets the same contents in ANOTHER order (what was built earlier in the process is no part of an
+# object's content): even seeds start with the last items, odd seeds shuffle
+order = list(range(len(items)))
+if int(sys.argv[2]) %% 2:
+    rnd.shuffle(order)
+else:
+    order.reverse()
+for i in order:
+    it = items[i]
     d = c08.shuffle_qualifiers(it["dict"], rnd)
     cls = K[it["kind"]][0]
     try:
         o = cls.from_dict(d) if it["kind"] == "annotation" else cls.from_dict(d, None)
-        out.append(str(o.guid))
+        out[i] = str(o.guid)
     except Exception as ex:
-        out.append("!" + type(ex).__name__)
+        out[i] = "!" + type(ex).__name__
 print(json.dumps(out))
 """
 
@@ -449,6 +457,16 @@ def sweep(chk, seeds):
             if kind != "annotation":
                 pass
             items.append({"kind": kind, "dict": d})
+    # contents whose digests hold the scalars 0 / 1 next to contents whose digests hold False / True
+    from inscripta.biocantor.gene.feature import FeatureInterval
+    from inscripta.biocantor.gene.variants import VariantInterval
+    from inscripta.biocantor.location.strand import Strand
+
+    small = [("variant", VariantInterval(0, 1, "A", "SNV", phase_block=1)), ("variant", VariantInterval(1, 2, "T", "SNV", phase_block=0)),
+             ("feature", FeatureInterval([0], [1], Strand.PLUS, is_primary_feature=True)),
+             ("feature", FeatureInterval([1], [2], Strand.PLUS, is_primary_feature=False))]
+    extra = [{"kind": k, "dict": norm(strip_guids(obj_dict(k, o)))} for k, o in small]
+    items = extra[:2] + items + extra[2:]
     path = os.path.join(chk.dir, "sweep_items.json")
     json.dump(items, open(path, "w"))
     script = os.path.join(chk.dir, "sweep_child.py")
